@@ -191,6 +191,6 @@ pub fn def() -> PropDef {
         rule: "values of the JSON-serialisable built-in types from a structured generator (DateTime at millisecond precision, NodeId identifiers non-empty) through serde_json to_value/from_value and to_string/from_str; non-trivial = value has a null/empty distinction, a 64-bit integer beyond 2^53, a nested Variant/DataValue, a non-zero namespace, or is a structured type; distinct = distinct (kind, generator bytes)",
         assumptions: &["equality is the crate's derived PartialEq, with the Debug rendering as fallback for NaN", "Variant arrays are generated as their own class (known finding: the JSON encoder does not support them)"],
         abort_possible: false,
-        parts: |tier| vec![part("roundtrip", tier.pick(60_000, 2_000_000), (0u8..KINDS.len() as u8, proptest::collection::vec(any::<u8>(), 0..120)).prop_map(|(kind, data)| Case { kind, data }), check)],
+        parts: |tier| vec![part("roundtrip", tier.pick(60_000, 30_000_000), (0u8..KINDS.len() as u8, proptest::collection::vec(any::<u8>(), 0..120)).prop_map(|(kind, data)| Case { kind, data }), check)],
     }
 }
